@@ -206,11 +206,13 @@ Fixpoint dyn_cflist (r : rid) (chs : list (option channel)) (idx : nat) (freqs :
   end.
 
 Definition dyn_mask_update (m : mask) (ctl : N) (lo hi : N) : outcome (option mask) :=
-  if ctl <=? 4 then
+  if ctl <=? 3 then
     match set_bank m (N.to_nat (ctl * 2)) lo with
     | Val m1 => match set_bank m1 (S (N.to_nat (ctl * 2))) hi with Val m2 => Val (Some m2) | Panic => Panic | OutOfDraws => OutOfDraws end
     | Panic => Panic | OutOfDraws => OutOfDraws
     end
+  else if ctl =? 4 then
+    match set_bank m 8 lo with Val m1 => Val (Some m1) | Panic => Panic | OutOfDraws => OutOfDraws end
   else if ctl =? 5 then
     let w := lo + 256 * hi in
     (* ((ch_mask & (1 << k)) * 0xFF) as u8 -- u16 arithmetic: Panic (debug overflow) when the product exceeds 65535 *)
@@ -448,11 +450,13 @@ Definition fix_select (r : rid) (p : fix_plan) (datarate : N) (join : bool) (dra
 Definition fix_mask_set (p : fix_plan) (m : mask) : fix_plan := {| fp_mask := m; fp_jc := jc_reset (fp_jc p) |}.
 
 Definition fix_mask_update (m : mask) (ctl lo hi : N) : outcome (option mask) :=
-  if ctl <=? 4 then
+  if ctl <=? 3 then
     match set_bank m (N.to_nat (ctl * 2)) lo with
     | Val m1 => match set_bank m1 (S (N.to_nat (ctl * 2))) hi with Val m2 => Val (Some m2) | Panic => Panic | OutOfDraws => OutOfDraws end
     | Panic => Panic | OutOfDraws => OutOfDraws
     end
+  else if ctl =? 4 then
+    match set_bank m 8 lo with Val m1 => Val (Some m1) | Panic => Panic | OutOfDraws => OutOfDraws end
   else if ctl =? 5 then
     Val (Some (map (fun i => if N.testbit lo (N.of_nat i) then 0xFF else 0) (seq 0 8) ++ [lo]))
   else if ctl =? 6 then Val (Some (repeat 0xFF 8 ++ [lo]))
